@@ -444,9 +444,18 @@ class Scenario:
     def tick(self):
         self.clock += 1
 
-    def wake(self, d=0):
-        self.clock += 1
+    def wake(self, d=0, adv=1):
+        """1 ms of loop time passes; the wall clock advances by adv ms (0: it stands still)"""
+        self.clock += adv
         self._run(d, advance=0.001)
+
+    def declare(self, route, d=0):
+        """@app.route('/route') while the application is running"""
+        if self.front == 'v2':
+            self.app.route('/' + route)(lambda name, app_param, reply, context: None)
+        else:
+            self.app.route('/' + route)(lambda name, param, app_param: None)
+        self._run(d)
 
     def reply(self, idx, kind, body, d=0, garbage=GARBAGE):
         """answer the idx-th (0-based) command Interest on the wire."""
